@@ -373,7 +373,18 @@ GhostNext(gh, pre, rec, post, conforms) ==
       quantum(u) == IF IsPos(dIdx(u)) THEN CeilDiv(BMul(dIdx(u), BMax(pre.assets[u[2]].total, IF u[2] \in DOMAIN post.assets THEN post.assets[u[2]].total ELSE "0")), BMul(ONE, ONE)) ELSE "0"
       inc(rd) == BSum({u \in upd : u[3] = rd /\ u[2] \in DOMAIN pre.assets},
                       LAMBDA u : BAdd(BQuo(BMul("4", BAdd(TruncInt(ValTokens(pre.assets[u[2]], Info(pre, u[1]), u[2])), Get(post.bank.rewards, rd))), ONE), quantum(u)))
-      k22 == CoinsAdd(gh.k2, [rd \in {rd \in {u[3] : u \in upd} : ~IsZero(inc(rd))} |-> inc(rd)])
+      \* a claim multiplies the outstanding index by the position's whole-token balance, which can exceed its exact value by up to
+      \* a token (the balance is rounded with +0.01 and truncated) or by the valuation quanta of K2Resolution: once the position
+      \* has claimed, that excess has left the pool for good, so the allowance moves from the state-based term into the ghost
+      clm == {k \in Claimers(pre, rec) : k \in DOMAIN pre.dels /\ k[2] \in DOMAIN post.vals}
+      outAt(k, rd) == LET key == <<k[3], rd>> IN
+                        BSub(IF key \in DOMAIN post.vals[k[2]].hist THEN post.vals[k[2]].hist[key] ELSE "0", IF key \in DOMAIN pre.dels[k].hist THEN pre.dels[k].hist[key] ELSE "0")
+      realized(rd) == BSum({k \in clm : IsPos(outAt(k, rd))},
+                           LAMBDA k : BAdd(CeilDiv(BMul(BMax("1", CeilDiv(TruncInt(ValTokens(pre.assets[k[3]], Info(pre, k[2]), k[3])), ONE)), outAt(k, rd)), ONE),
+                                           CeilDiv(BMul(outAt(k, rd), pre.assets[k[3]].total), BMul(ONE, ONE))))
+      rdsAll == {u[3] : u \in upd} \cup UNION {{h[2] : h \in {h \in DOMAIN post.vals[k[2]].hist : h[1] = k[3]}} : k \in clm}
+      k22 == CoinsAdd(gh.k2, [rd \in {rd \in rdsAll : ~IsZero(BAdd(IF rd \in {u[3] : u \in upd} THEN inc(rd) ELSE "0", realized(rd)))} |->
+                                  BAdd(IF rd \in {u[3] : u \in upd} THEN inc(rd) ELSE "0", realized(rd))])
       \* K9: pending rewards of v were withdrawn in this step while v recorded no delegator shares
       strand == {v \in DOMAIN pre.env.vals : HasMod(pre, v) /\ ~IsEmptyMap(Pending(pre, v)) /\ v \in DOMAIN post.env.vals /\ IsEmptyMap(Pending(post, v))
                                              /\ (IsEmptyMap(Info(pre, v).dshares) \/ PoolWeightless(pre, v))
@@ -565,7 +576,9 @@ C07_Red_Step(pre, rec, post, gh) ==
         \cup UNION {CheckK("C07", RLe(errTok(k), RInt(tol(k))),
                            \* K3b: with the asset's share total at zero the destination's stake has no price (the code values every
                            \* position at the whole staked total), so "shares worth floor(f*redelegated)" is whatever that yields
-                           IF MergedRecord(gh, k) THEN "K4" ELSE IF OrphanedTotal(pre, k[3]) THEN "K3b" ELSE HookFundsKF(rec, gh),
+                           IF MergedRecord(gh, k) THEN "K4" ELSE IF OrphanedTotal(pre, k[3]) THEN "K3b"
+                           \* K8: the callback converts the tokens to take into shares with the same 1:1 shortcut / 0.01-share margin
+                           ELSE IF OrphanedOnValidator(pre, k[2], k[3]) \/ PriceInflated(pre, k[2], k[3]) THEN "K8" ELSE HookFundsKF(rec, gh),
                            "slash of " \o v \o " by " \o f \o ": destination position " \o ToString(k) \o " did not lose the shares worth floor(f*redelegated) = " \o want(k) \o
                            " (capped at what it holds) per pending entry") : k \in live}
 
